@@ -246,6 +246,8 @@ class Grammar:
         self.prods = []      # (fn name, lean term)
         self.actions = []    # (fn name, closure text)
         self.names = {}
+        self.depth_guards = []   # (fn name, name of the limit constant)
+        self.consts = {}
 
     def nt(self, fn):
         return "G.nt N.%s" % lean_id(fn)
@@ -345,6 +347,16 @@ class Grammar:
         if m:
             return "G.cls%s %s" % ("1" if m.group(1) else "0", XMLCHAR_PRED[m.group(2)])
         text = re.sub(r"^//[^\n]*\n", "", text, flags=re.M).strip()
+        # recursion-depth guard:  count up, refuse beyond the limit, else delegate, count down
+        m = re.match(r"let depth = (\w+)\.with\(\|d\| \{ d\.set\(d\.get\(\) \+ 1\); d\.get\(\) \}\); "
+                     r"let result = if depth > (\w+) \{ Err\(nom::Err::Error\(nom::error::Error::new\( input, "
+                     r"ErrorKind::TooLarge, \)\)\) \} else \{ (\w+)\(input\) \}; "
+                     r"\1\.with\(\|d\| d\.set\(d\.get\(\) - 1\)\); result$", " ".join(text.split()))
+        if m:
+            if m.group(3) not in self.names:
+                raise TranslateError("%s: depth guard delegates to unknown parser %s" % (fn, m.group(3)))
+            self.depth_guards.append((fn, m.group(2)))
+            return self.nt(m.group(3))
         if not text.endswith("(input)"):
             raise TranslateError("%s: body does not end in (input)" % fn)
         p = Parser(text[:-len("(input)")])
@@ -355,6 +367,8 @@ class Grammar:
 
     def add_file(self, path, only=None):
         fns = functions(path)
+        for m in re.finditer(r"^pub const (\w+): usize = (\d+);", open(path).read(), re.M):
+            self.consts[m.group(1)] = int(m.group(2))
         for n, _ in fns:
             if only is None or n in only:
                 self.names[n] = True
@@ -384,6 +398,15 @@ class Grammar:
         lines.append("")
         for i, (n, t) in enumerate(self.prods):
             lines.append("theorem env_%s : env N.%s = Prod.%s := rfl" % (n, lean_id(n), lean_id(n)))
+        lines.append("")
+        for fn, const in self.depth_guards:
+            if const not in self.consts:
+                raise TranslateError("%s: limit constant %s not found" % (fn, const))
+            lines.append("/-- `%s` refuses nesting deeper than this (thread-local depth counter in the source) -/" % fn)
+            lines.append("def maxDepth_%s : Nat := %d" % (fn, self.consts[const]))
+        if not self.depth_guards:
+            lines.append("/-- no recursion-depth guard in the source: unbounded -/")
+            lines.append("def maxDepth_element : Nat := 0")
         lines.append("")
         lines.append("/-- semantic actions (closures of `map`) seen by the translator: (production, sha1 of the text).")
         lines.append("    The model's `abs` functions are hand-written counterparts; the differential tie covers them. -/")
